@@ -141,6 +141,9 @@ func init() {
 			}
 			switch kind {
 			case "pub1", "pub2a":
+				if p.Type == 0x30 && p.ID != uint16(id) {
+					r.Props = append(r.Props, viol("C15", "caller-id-changed", "%s/%s: the identifier %d the caller put on the message was replaced by %d on retransmission", kind, cause, id, p.ID))
+				}
 				if p.Type != 0x30 || p.ID != uint16(id) || p.Topic != msg.Topic || !bytes.Equal(p.Payload, msg.Payload) || p.QoS != byte(msg.QoS) || p.Retain != retain {
 					return fail("C19", "retry-wrong-request", "Retry sent %s, not the original PUBLISH", showSPkt(p))
 				}
